@@ -1692,7 +1692,10 @@ def solver_protocol_part(ctx, rng, only=None):
               "ops": [["start", 5, 0], ["step", 1, None], ["opts", [(0, 3), (4, 6)]],
                       ["step", 2, 2], ["run", 7, 0, [1, 2], 3], ["step", 4, None],
                       ["item", 4, 7], ["step", 5, None], ["opts", [(0, 1), (3, 10)]],
-                      ["step", 6, 3]]}]
+                      ["step", 6, 3]]},
+             {"solver": "me", "w0": 1, "init": [(0, 2)],
+              "ops": [["start", 5, 0], ["step", 1, 2], ["run", 7, 0, [1, 2], 3], ["step", 4, 2],
+                      ["step", 5, 2], ["run", 9, 0, [], 1], ["step", 1, 2]]}]
     if only is not None:
         cases, ncases = [only], 1
     while len(cases) < ncases:
